@@ -28,47 +28,48 @@ import (
 )
 
 type Scenario struct {
-	RunSeed    uint64           `json:"run_seed"`
-	Strategy   int              `json:"strategy"`
-	PCTDepth   int              `json:"pct_depth,omitempty"`
-	Kind       string           `json:"kind"`    // axfr | ixfr-inc | ixfr-axfr | ixfr-uptodate
-	Records    int              `json:"records"` // records besides the SOAs (axfr / ixfr-axfr), or per difference section (ixfr-inc)
-	Seqs       int              `json:"seqs,omitempty"`
-	AllCuts    bool             `json:"all_cuts,omitempty"` // the scenario is run once for every composition of its record sequence into envelopes (small zones: at most 9 records), Cuts is ignored
-	Cuts       []int            `json:"cuts,omitempty"`     // envelope boundaries: indices into the record sequence after which a new envelope starts
-	Sender     string           `json:"sender"`             // out (real Server + Transfer.Out) | scripted
-	Alg        string           `json:"alg,omitempty"`      // TSIG algorithm ("" = no TSIG)
-	ClientKey  bool             `json:"client_key,omitempty"`
-	ServerKey  bool             `json:"server_key,omitempty"`
-	Fudge      int              `json:"fudge,omitempty"`
-	Ops        []common.FrameOp `json:"ops,omitempty"`
-	CutAt      int              `json:"cut_at,omitempty"` // link closes the stream towards the client after this many octets
-	CutRST     bool             `json:"cut_rst,omitempty"`
-	SegMode    int              `json:"segmode,omitempty"`
-	ShortRead  int              `json:"shortread,omitempty"`
-	DelayMs    int              `json:"delay_ms,omitempty"`
-	TimeoutMs  int              `json:"read_timeout_ms"`
-	ConsumerMs int              `json:"consumer_ms,omitempty"` // the application spends this long on every envelope before it takes the next one off the channel
-	StepBack   int              `json:"step_back,omitempty"`   // scripted sender: from its second envelope on its clock reads this many seconds less than before (stepped back by a time service, a leap second): later envelopes carry an earlier time signed, all inside the fudge
-	SkewS      int              `json:"skew_s,omitempty"`      // scripted sender: its clock is this many seconds off the receiver's (ahead when positive) - inside the fudge unless a fault plan says otherwise
-	EmptyKeys  bool             `json:"empty_keys,omitempty"`  // the receiver has TSIG switched on (a non-nil secret map) but holds no key: no envelope can verify
-	Dial       string           `json:"dial,omitempty"`        // "" a preset connection | ok | refused : Transfer.In makes the connection itself (socket seam of the instrumented build; a preset connection elsewhere)
-	Hijack     bool             `json:"hijack,omitempty"`      // sender "out": the handler takes the connection over (Hijack), returns, and Transfer.Out carries on from another task - while a bystander asks the same server ordinary questions over connections of its own
-	OutFailAt  int              `json:"out_fail_at,omitempty"` // sender "out": the n-th write on the sender's side of the connection fails (after a prefix of the envelope, or nothing, has gone out); later writes would succeed
-	Twin       bool             `json:"twin,omitempty"`        // sender "out": the application keeps ONE dns.Transfer value for all its outgoing transfers, and a second receiver asks the same server for the same zone over a connection of its own while the first transfer runs
-	Foreign    bool             `json:"foreign,omitempty"`     // sender "out": Transfer.Out writes through a ResponseWriter that is not the library's server's - an application's own, which signs what it is given under the request's MAC and goes by the TsigTimersOnly calls it receives
-	HijackLate bool             `json:"hijack_late,omitempty"` // sender "out", paced: the handler starts Transfer.Out in a task of its own, waits until the first envelope is on its way, then takes the connection over (Hijack) and returns - the order the library's own transfer tests use
-	OutPaceMs  int              `json:"out_pace_ms,omitempty"` // sender "out": the application hands Transfer.Out one envelope every so often; with a fudge of 5 s the whole transfer takes longer than the fudge
-	PaceMs     int              `json:"pace_ms,omitempty"`     // scripted sender: pause between envelopes (shorter than the read timeout; the whole transfer may take much longer than it)
-	BadFirst   bool             `json:"bad_first,omitempty"`   // scripted: the sequence does not start with an SOA
-	Rcode      int              `json:"rcode,omitempty"`       // scripted: envelope RcodeAt carries this RCODE
-	RcodeAt    int              `json:"rcode_at,omitempty"`
-	WrongID    int              `json:"wrong_id_at,omitempty"` // scripted: envelope index+1 that carries another ID (0 = none)
-	Trailing   bool             `json:"trailing,omitempty"`    // scripted: one more envelope after the closing one
-	DefTimeout bool             `json:"def_timeout,omitempty"` // Transfer.ReadTimeout is left at zero: the documented default of 2 s applies (read_timeout_ms is 2000)
-	QCase      bool             `json:"qcase,omitempty"`       // the zone is asked for in another letter case than the one the sender spells it in
-	LocalClose int              `json:"local_close,omitempty"` // the application closes the transfer's connection itself after taking this many envelopes
-	Big        int              `json:"big,omitempty"`         // axfr / ixfr-axfr: the envelope that holds the second record of the zone is filled up with TXT records until its message - as the sender builds it, unsigned TSIG stub included - is 65535 + Big - 1000 octets long (Big 1000: exactly what a stream can frame before the MAC is added; 0 = off)
+	RunSeed     uint64           `json:"run_seed"`
+	Strategy    int              `json:"strategy"`
+	PCTDepth    int              `json:"pct_depth,omitempty"`
+	Kind        string           `json:"kind"`    // axfr | ixfr-inc | ixfr-axfr | ixfr-uptodate
+	Records     int              `json:"records"` // records besides the SOAs (axfr / ixfr-axfr), or per difference section (ixfr-inc)
+	Seqs        int              `json:"seqs,omitempty"`
+	AllCuts     bool             `json:"all_cuts,omitempty"` // the scenario is run once for every composition of its record sequence into envelopes (small zones: at most 9 records), Cuts is ignored
+	Cuts        []int            `json:"cuts,omitempty"`     // envelope boundaries: indices into the record sequence after which a new envelope starts
+	Sender      string           `json:"sender"`             // out (real Server + Transfer.Out) | scripted
+	Alg         string           `json:"alg,omitempty"`      // TSIG algorithm ("" = no TSIG)
+	ClientKey   bool             `json:"client_key,omitempty"`
+	ServerKey   bool             `json:"server_key,omitempty"`
+	Fudge       int              `json:"fudge,omitempty"`
+	Ops         []common.FrameOp `json:"ops,omitempty"`
+	CutAt       int              `json:"cut_at,omitempty"` // link closes the stream towards the client after this many octets
+	CutRST      bool             `json:"cut_rst,omitempty"`
+	SegMode     int              `json:"segmode,omitempty"`
+	ShortRead   int              `json:"shortread,omitempty"`
+	DelayMs     int              `json:"delay_ms,omitempty"`
+	TimeoutMs   int              `json:"read_timeout_ms"`
+	ConsumerMs  int              `json:"consumer_ms,omitempty"` // the application spends this long on every envelope before it takes the next one off the channel
+	StepBack    int              `json:"step_back,omitempty"`   // scripted sender: from its second envelope on its clock reads this many seconds less than before (stepped back by a time service, a leap second): later envelopes carry an earlier time signed, all inside the fudge
+	SkewS       int              `json:"skew_s,omitempty"`      // scripted sender: its clock is this many seconds off the receiver's (ahead when positive) - inside the fudge unless a fault plan says otherwise
+	EmptyKeys   bool             `json:"empty_keys,omitempty"`  // the receiver has TSIG switched on (a non-nil secret map) but holds no key: no envelope can verify
+	Dial        string           `json:"dial,omitempty"`        // "" a preset connection | ok | refused : Transfer.In makes the connection itself (socket seam of the instrumented build; a preset connection elsewhere)
+	Hijack      bool             `json:"hijack,omitempty"`      // sender "out": the handler takes the connection over (Hijack), returns, and Transfer.Out carries on from another task - while a bystander asks the same server ordinary questions over connections of its own
+	OutFailAt   int              `json:"out_fail_at,omitempty"` // sender "out": the n-th write on the sender's side of the connection fails (after a prefix of the envelope, or nothing, has gone out); later writes would succeed
+	Twin        bool             `json:"twin,omitempty"`        // sender "out": the application keeps ONE dns.Transfer value for all its outgoing transfers, and a second receiver asks the same server for the same zone over a connection of its own while the first transfer runs
+	Foreign     bool             `json:"foreign,omitempty"`     // sender "out": Transfer.Out writes through a ResponseWriter that is not the library's server's - an application's own, which signs what it is given under the request's MAC and goes by the TsigTimersOnly calls it receives
+	HijackLate  bool             `json:"hijack_late,omitempty"` // sender "out", paced: the handler starts Transfer.Out in a task of its own, waits until the first envelope is on its way, then takes the connection over (Hijack) and returns - the order the library's own transfer tests use
+	OutPaceMs   int              `json:"out_pace_ms,omitempty"` // sender "out": the application hands Transfer.Out one envelope every so often; with a fudge of 5 s the whole transfer takes longer than the fudge
+	PaceMs      int              `json:"pace_ms,omitempty"`     // scripted sender: pause between envelopes (shorter than the read timeout; the whole transfer may take much longer than it)
+	BadFirst    bool             `json:"bad_first,omitempty"`   // scripted: the sequence does not start with an SOA
+	Rcode       int              `json:"rcode,omitempty"`       // scripted: envelope RcodeAt carries this RCODE
+	RcodeAt     int              `json:"rcode_at,omitempty"`
+	WrongID     int              `json:"wrong_id_at,omitempty"`   // scripted: envelope index+1 that carries another ID (0 = none)
+	Trailing    bool             `json:"trailing,omitempty"`      // scripted: one more envelope after the closing one
+	DefTimeout  bool             `json:"def_timeout,omitempty"`   // Transfer.ReadTimeout is left at zero: the documented default of 2 s applies (read_timeout_ms is 2000)
+	QCase       bool             `json:"qcase,omitempty"`         // the zone is asked for in another letter case than the one the sender spells it in
+	LocalClose  int              `json:"local_close,omitempty"`   // the application closes the transfer's connection itself after taking this many envelopes
+	FinWithLast bool             `json:"fin_with_last,omitempty"` // a link without faults whose far end closes right behind the closing envelope: the receiver's last read may return the last octets together with io.EOF, as an io.Reader may (a TLS connection, a tunnel)
+	Big         int              `json:"big,omitempty"`           // axfr / ixfr-axfr: the envelope that holds the second record of the zone is filled up with TXT records until its message - as the sender builds it, unsigned TSIG stub included - is 65535 + Big - 1000 octets long (Big 1000: exactly what a stream can frame before the MAC is added; 0 = off)
 }
 
 const (
@@ -274,6 +275,9 @@ func Gen(seed uint64, tier string) any {
 		// one envelope at the edge of what a stream can frame: one octet more and it cannot be sent, and a MAC
 		// of 20 .. 64 octets has yet to be added to it
 		sc.Big = 1000 + core.Pick(r, 0, 0, -1, 1, 2, -10, -19, -20, -21, -27, -28, -29, -31, -32, -33, -47, -48, -49, -63, -64, -65, -66, -100, -700)
+	}
+	if len(sc.Ops) == 0 && sc.CutAt == 0 && !sc.BadFirst && sc.Rcode == 0 && sc.WrongID == 0 && !sc.Trailing && sc.LocalClose == 0 && sc.OutFailAt == 0 && core.Chance(r, 12) {
+		sc.FinWithLast = true
 	}
 	if sc.TimeoutMs != 2000 {
 		sc.DefTimeout = false
@@ -1317,6 +1321,10 @@ func runIn(sc *Scenario, res *core.Result, verbose bool) {
 		cli.CutAfter(sc.CutAt, sc.CutRST)
 	}
 	x.relay = &common.Relay{K: k, ToClient: relayC, ToServer: relayS, Ops: sc.Ops, WrongSecret: secretBad, RightSecret: secretGood, KeyName: keyName, Alg: sc.Alg, HeldKey: heldKeyName, HeldSecret: heldSecret}
+	if sc.FinWithLast {
+		x.relay.FinAfter = len(envelopes(sc))
+		n.Stream.EOFWithData = 75
+	}
 	x.relay.Start()
 	start0 := time.Now()
 	k.Go("client", &clientTask{x})
